@@ -361,7 +361,9 @@ func (P) Exec(c *harness.Case) *harness.Outcome {
 						return o
 					}
 					pass := now + wait
-					need := uint64(int64(b) * int64(D) / T)
+					// batch*duration/threshold, not truncated: timestamps are whole milliseconds, so "at least that far
+					// apart" means the next whole millisecond
+					need := uint64((int64(b)*int64(D) + T - 1) / T)
 					if n := len(st.admitted); n > 0 {
 						prev := st.admitted[n-1].pass
 						if pass < prev+need {
